@@ -1,9 +1,11 @@
 #!/usr/bin/env python3
 """Copy confirmed seeded changes into /verif/seeded/<ID>-m<k>/ and record what the checks say about them.
-usage: tools/save_seeded.py <ID> <seed dir> <k> "<needs>" "<demo command>" """
+usage: tools/save_seeded.py <ID> <seed dir> <k> "<needs>" "<demo command>" [<k in /verif/seeded>] ["<detected_after>"] """
 import json, os, shutil, subprocess, sys, re
 pid, src, k, needs, demo = sys.argv[1:6]
-dst = f"/verif/seeded/{pid}-m{k}"
+dk = sys.argv[6] if len(sys.argv) > 6 else k
+after = sys.argv[7] if len(sys.argv) > 7 else ""
+dst = f"/verif/seeded/{pid}-m{dk}"
 os.makedirs(dst, exist_ok=True)
 m = os.path.join(src, f"m{k}")
 for f in ["patch.diff", "demo.diff", "README.md", "confirm.log"]:
@@ -24,5 +26,8 @@ meta = {
     "detected": bool(sigs) and rc == ["1"],
     "signatures": sigs[:8],
 }
+meta["check_run"] = f"tools/try_mutant_iso.sh {pid} seeded/{pid}-m{dk}/patch.diff quick"
+if after:
+    meta["detected_after"] = after
 json.dump(meta, open(os.path.join(dst, "meta.json"), "w"), indent=1)
-print(pid, k, "confirmed" if confirmed else "NOT confirmed", "detected" if meta["detected"] else "MISSED", sigs[:3])
+print(pid, dk, "confirmed" if confirmed else "NOT confirmed", "detected" if meta["detected"] else "MISSED", sigs[:3])
